@@ -5,7 +5,7 @@
 // decided by polling the batcher's own worker-pool channel (a token is taken synchronously by flush() and
 // returned after done.OnDone), never by sleeping.
 // Case terms (Coq, type ccase):
-//   (CBat min max evs batches fired)%Z   evs: (0, ids, foreign) consume | (1, [], 0) timer flush |
+//   (CBat min max slack evs batches fired)%Z   evs: (0, ids, foreign) consume | (1, [], 0) timer flush |
 //                                             (2, [b], err) export of batch b returns | (3, [], 0) shutdown flush
 //                                        batches: ids of every exported batch in start order
 //                                        fired: (request index, error?) for every Done.OnDone call in order
@@ -32,6 +32,12 @@ type c04Fake struct {
 	foreign bool
 }
 
+// c04Slack shapes the fake MergeSplit: 0 = every result but the last holds exactly max ids (what the
+// repository's own fake request does); s > 0 = a result that starts with id x holds max - (x mod (s+1)) ids
+// (at least 1, and the first result at least everything the receiver held), i.e. results are NOT filled up to max — like the real byte-based splitting, which leaves slack
+// below max_size, so that a non-last result can be below min_size.  Constant during one history.
+var c04Slack int
+
 func (r *c04Fake) ItemsCount() int { return len(r.ids) }
 
 func (r *c04Fake) MergeSplit(_ context.Context, max int, _ request.SizerType, other request.Request) ([]request.Request, error) {
@@ -49,10 +55,27 @@ func (r *c04Fake) MergeSplit(_ context.Context, max int, _ request.SizerType, ot
 	if max == 0 {
 		return []request.Request{&c04Fake{ids: l}}, nil
 	}
+	// like the real extraction (a greedy prefix), the first result takes everything the receiver already held
+	// (it fitted into max before) and possibly nothing of the other request
+	keep := 0
+	if other != nil {
+		keep = len(r.ids)
+		if keep > max {
+			keep = max
+		}
+	}
 	var out []request.Request
 	for len(l) > max {
-		out = append(out, &c04Fake{ids: l[:max:max]})
-		l = l[max:]
+		c := max - l[0]%(c04Slack+1)
+		if c < 1 {
+			c = 1
+		}
+		if c < keep {
+			c = keep
+		}
+		keep = 0
+		out = append(out, &c04Fake{ids: l[:c:c]})
+		l = l[c:]
 	}
 	return append(out, &c04Fake{ids: l}), nil
 }
@@ -120,11 +143,13 @@ func c04History(out *vOut, r *vRand, timerMode bool) error {
 	min := r.Pick(2, 3, 3, 2) * (1 + r.Intn(3)) // 0, or small
 	max := 0
 	if r.Intn(4) != 0 {
-		max = min + r.Intn(6)
+		// min_size == max_size and min_size just below max_size are valid configurations and the interesting ones
+		max = min + r.Pick(3, 2, 1, 1, 1, 1)
 		if max == 0 {
 			max = 1 + r.Intn(4)
 		}
 	}
+	c04Slack = r.Pick(4, 2, 2, 1, 1) // 0: results filled to max; 1..4: results with slack below max
 	rig := &c04Rig{}
 	next := func(_ context.Context, req request.Request) error {
 		fl := &c04Flight{req: req.(*c04Fake), ch: make(chan error)}
@@ -167,7 +192,9 @@ func c04History(out *vOut, r *vRand, timerMode bool) error {
 	reqForeign := map[int]bool{}
 	batchErr := map[int]bool{}
 	resultAt := map[int]int{} // batch -> position in rig.log
+	startedBy := map[int][]int{} // request -> batches started by its Consume call
 
+	var lastFresh []int // batch ids started by the last settled event
 	settle := func() error {
 		// all flush goroutines started so far have reached consumeFunc, all released ones have returned
 		// their token (hence finished done.OnDone)
@@ -193,8 +220,10 @@ func c04History(out *vOut, r *vRand, timerMode bool) error {
 			}
 			return a[0] < b[0]
 		})
+		lastFresh = lastFresh[:0]
 		for _, f := range fresh {
 			f.id = len(batches)
+			lastFresh = append(lastFresh, f.id)
 			batches = append(batches, f.req.ids)
 			open = append(open, f)
 		}
@@ -241,7 +270,7 @@ func c04History(out *vOut, r *vRand, timerMode bool) error {
 		}
 		switch {
 		case k == 0:
-			n := r.Pick(1, 3, 3, 2, 2, 1, 1, 1)
+			n := r.Pick(1, 3, 3, 2, 2, 1, 1, 1, 0, 1, 0, 1, 0, 1) // 0..7, sometimes 9, 11, 13 ids
 			ids := make([]int, n)
 			for i := range ids {
 				nextID++
@@ -271,6 +300,7 @@ func c04History(out *vOut, r *vRand, timerMode bool) error {
 			if err := settle(); err != nil {
 				return err
 			}
+			startedBy[nreq-1] = append([]int(nil), lastFresh...)
 			noteFires("C")
 			if timerMode && wasParked {
 				evs = append(evs, c04Ev{kind: 1})
@@ -359,7 +389,7 @@ func c04History(out *vOut, r *vRand, timerMode bool) error {
 	fired := append([][2]int(nil), rig.fired...)
 	log := append([]string(nil), rig.log...)
 	rig.mu.Unlock()
-	term := fmt.Sprintf("(CBat %d %d [%s] [%s] [%s])%%Z", min, max, strings.Join(evt, ";"), strings.Join(bt, ";"), strings.Join(ft, ";"))
+	term := fmt.Sprintf("(CBat %d %d %d [%s] [%s] [%s])%%Z", min, max, c04Slack, strings.Join(evt, ";"), strings.Join(bt, ";"), strings.Join(ft, ";"))
 
 	// ---- direct oracle (implementation only) ----
 	idBatch := map[int]int{}
@@ -423,7 +453,15 @@ func c04History(out *vOut, r *vRand, timerMode bool) error {
 			multi = true
 		}
 		if len(reqIDs[i]) > 0 && (ferr[i] == 1) != anyFail {
-			out.Oracle("done-error-mismatch", term, fmt.Sprintf("request=%d reported error=%d but a batch failed=%v", i, ferr[i], anyFail))
+			// a failed batch that this request's Consume started but that holds none of its items (the merged
+			// current batch left alone because nothing of the new request fitted beside it)
+			foreign := false
+			for _, b := range startedBy[i] {
+				if batchErr[b] && !bs[b] {
+					foreign = true
+				}
+			}
+			out.Oracle("done-error-mismatch", term, fmt.Sprintf("request=%d reported error=%d but a batch failed=%v charged_with_failed_batch_without_its_items=%v", i, ferr[i], anyFail, foreign))
 		}
 	}
 	if len(exported) != want {
@@ -451,6 +489,18 @@ func c04History(out *vOut, r *vRand, timerMode bool) error {
 	}
 	out.Case(multi, term)
 	out.Stat("histories", 1)
+	out.Stat(fmt.Sprintf("histories.slack_%d", c04Slack), 1)
+	if max > 0 && max-min <= 1 {
+		out.Stat("histories.min_at_or_next_to_max", 1)
+	}
+	for _, b := range batches {
+		if max > 0 && len(b) < min {
+			out.Stat("batches.exported_below_min", 1)
+		}
+		if max > 0 && len(b) == max {
+			out.Stat("batches.exported_full", 1)
+		}
+	}
 	if timerMode {
 		out.Stat("histories.real_timer", 1)
 	}
